@@ -8,9 +8,12 @@
 // (documents built by arbitrary mutation histories are checked inside the domexplore engine,
 //  which C06 runs as a second job.)
 #include <cmath>
+#include <sys/mman.h>
+
 #include <memory>
 
 #include "common/families.hpp"
+#include "common/fence_alloc.hpp"
 #include "common/refjson.hpp"
 #include "common/runner.hpp"
 #include "common/sonic_cmp.hpp"
@@ -257,7 +260,83 @@ int main(int argc, char** argv) {
   fams.push_back(t3);
   fams.push_back(t4);
 
+  // T9: documents whose every block (copied strings: exactly len+1 bytes; node arrays; the padded parse buffer) ends at
+  // a PROT_NONE page (fence allocator, see common/fence_alloc.hpp) - decisive in the production builds, where
+  // the in-page fast paths that sanitizer builds compile out are active
+  std::vector<unsigned> t9lens;
+  for (unsigned l = 0; l <= 130; l++) t9lens.push_back(l);
+  for (unsigned l : {255u, 256u, 257u, 511u, 512u, 513u, 1023u, 1024u, 1025u, 4097u}) t9lens.push_back(l);
+  vr::Family t9;
+  t9.name = "T9_fenced_blocks";
+  t9.count = (uint64_t)t9lens.size() * 8;
+  t9.group = "T9";
+  t9.chunk = 8;
+  t9.rule = "strings of every length 0..130 and 255..257, 511..513, 1023..1025, 4097 in 8 byte patterns (plain; quote / backslash / control byte first, middle, last; all escapable) COPIED into a document whose allocator places every block directly in front of an inaccessible page: as root, array elements, object key + value, after CopyFrom of a parsed document, and parsed in place; full serialisation oracle";
+  if (!asan) fams.push_back(t9);  // mprotect-based: production builds only (ASan has its own red zones)
   vr::CheckFn check = [&](const vr::Family& f, uint64_t idx, vr::Ctx& ctx) {
+    if (f.name[0] == 'T' && f.name[1] == '9') {
+      using FDoc = GenericDocument<DNode<fa::FenceAllocator>>;
+      using FN = FDoc::NodeType;
+      unsigned pat = (unsigned)(idx % 8);
+      unsigned len = t9lens[idx / 8];
+      std::string s9(len, 'a');
+      if (len) {
+        switch (pat) {
+          case 0: break;
+          case 1: s9[0] = '"'; break;
+          case 2: s9[len / 2] = '\\'; break;
+          case 3: s9[len - 1] = '"'; break;
+          case 4: s9[len - 1] = '\\'; break;
+          case 5: s9[len - 1] = 0x01; break;
+          case 6: s9.assign(len, '"'); break;
+          case 7: s9[len - 1] = (char)0xff; break;
+        }
+      } else if (pat) {
+        ctx.skip();
+        return;
+      }
+      if (ctx.want_sample) ctx.sample("len " + std::to_string(len) + " pattern " + std::to_string(pat));
+      ctx.nontriv();
+      std::string desc = "fenced blocks, string length " + std::to_string(len) + " pattern " + std::to_string(pat);
+      {
+        FDoc d;
+        d.SetString(s9.data(), s9.size(), d.GetAllocator());
+        check_doc(d, ref::Value::mkS(s9), ctx, desc + " (root, copied)");
+      }
+      ref::Value v = ref::Value::mk(ref::Arr);
+      {
+        FDoc d;
+        auto& al = d.GetAllocator();
+        d.SetArray();
+        d.PushBack(FN(s9.data(), s9.size(), al), al);
+        d.PushBack(FN(uint64_t(1)), al);
+        FN o;
+        o.SetObject();
+        o.AddMember(StringView(s9.data(), s9.size()), FN(s9.data(), s9.size(), al), al, true);
+        d.PushBack(std::move(o), al);
+        v.a.push_back(ref::Value::mkS(s9));
+        v.a.push_back(ref::Value::mkU(1));
+        ref::Value ov = ref::Value::mk(ref::Obj);
+        ov.o.emplace_back(s9, ref::Value::mkS(s9));
+        v.a.push_back(ov);
+        check_doc(d, v, ctx, desc + " (array element, key and value, all copied)");
+        std::string text = d.Dump();
+        {
+          FDoc p;
+          p.Parse(text);
+          if (p.HasParseError())
+            ctx.violation("reparse_fails", "ser_reparse_fails", desc, "fence-allocator document rejects the text (code %d)", (int)p.GetParseError());
+          else
+            check_doc(p, v, ctx, desc + " (parsed in place into a fenced buffer)");
+          FDoc c;
+          c.CopyFrom(p, c.GetAllocator(), true);
+          check_doc(c, v, ctx, desc + " (deep copy of the parsed document)");
+        }
+      }
+      if (fa::table().errors) ctx.violation("fence_free", "ser_fence_foreign_free", desc, "a pointer that the allocator never handed out was freed");
+      if (!fa::table().live.empty()) ctx.violation("fence_leak", "ser_fence_leak", desc, "%zu blocks still allocated after the documents died", fa::table().live.size());
+      return;
+    }
     const std::string& nm = f.name;
     if (nm[0] == 'L' || nm == "TG_grammar_texts") {
       std::string text;
@@ -530,6 +609,26 @@ int main(int argc, char** argv) {
         v.a.push_back(ref::Value::mkS(s));
         v.a.push_back(ref::Value::mkS(s));
         check_doc(d, v, ctx, desc + " (array elements: windows into longer buffers)");
+      }
+      if (len == 0) {
+        // the empty string given as a default-constructed view (null data pointer) and as an empty window at the
+        // first byte of an inaccessible page: zero bytes may be read from either
+        static char* nopage = (char*)mmap(nullptr, 4096, PROT_NONE, MAP_PRIVATE | MAP_ANONYMOUS, -1, 0);
+        Document d;
+        d.SetArray();
+        d.PushBack(Node(StringView()), d.GetAllocator());
+        d.PushBack(Node(nopage, 0), d.GetAllocator());
+        Node o;
+        o.SetObject();
+        o.AddMember(StringView(), Node(StringView(nopage, 0)), d.GetAllocator(), false);
+        d.PushBack(std::move(o), d.GetAllocator());
+        ref::Value v = ref::Value::mk(ref::Arr);
+        v.a.push_back(ref::Value::mkS(""));
+        v.a.push_back(ref::Value::mkS(""));
+        ref::Value ov = ref::Value::mk(ref::Obj);
+        ov.o.emplace_back("", ref::Value::mkS(""));
+        v.a.push_back(ov);
+        check_doc(d, v, ctx, desc + " (empty strings with a null / inaccessible data pointer)");
       }
       {
         Document d;
